@@ -7,7 +7,7 @@ from lib import coq_list as L, coq_nat as N
 
 THEOREMS = ['C02_driver_sound', 'C02_certified_table_sound', 'C02_lr0_suffix', 'C02_error_keeps_prefix',
             'C02_shift_preferred', 'C02_reduce_only_without_shift', 'C02_rr_resolution', 'C02_conflict_iff',
-            'C02_model_table_wf', 'C02_model_table_sound', 'C02_example']
+            'C02_la_closure', 'C02_model_table_wf', 'C02_model_table_sound', 'C02_example']
 GEN_DEPS = []
 RULE = ('random CFGs (<=5 non-terminals, <=4 terminals, <=3 alternatives of length <=3; nullable alternatives, '
         'left/right recursion, shared LR(0) cores, rule priorities, shift/reduce and reduce/reduce conflicts, 1-2 start '
